@@ -180,7 +180,9 @@ func scan(surfs []surface, secrets []secret) []leak {
 
 // ---- the world ----------------------------------------------------------------
 
-var markerPasswords = []string{"Zq7#kV9x%mW2$pL5-é世!", "s3cr3t \"Tok%s\\n{}<&>' 9fQ2"}
+var markerPasswords = []string{"Zq7#kV9x%mW2$pL5-é世!", "s3cr3t \"Tok%s\\n{}<&>' 9fQ2",
+	// a password that is not valid UTF-8 (a byte string typed under another encoding)
+	"p\xffw\xfe-Kq93#xT!m\xc3(2Zr8"}
 
 type world struct {
 	w        *cworld.World
